@@ -27,7 +27,7 @@ func (c *Ctx) visitorRule(rule string, fn ruleFn) {
 }
 
 func init() {
-	for _, id := range []string{"C01", "C02", "C03", "C04", "C05", "C06", "C07", "C08", "C09", "C10", "C11", "C13", "C14", "C15", "C16", "C17", "C18"} {
+	for _, id := range []string{"C01", "C02", "C03", "C04", "C05", "C06", "C07", "C08", "C09", "C10", "C11", "C13", "C14", "C17", "C18"} {
 		notApplicable[id] = "check not built yet at this commit (see DESIGN.md §7 build order); no claim is made"
 	}
 	properties["C12"] = &Property{
@@ -48,6 +48,65 @@ func init() {
 		Run: func(c *Ctx) {
 			c.visitorRule("traverse-slots", visitors.TraverseSlots)
 			c.visitorRule("accept-dispatch", visitors.AcceptDispatch)
+		},
+	}
+
+	properties["C15"] = &Property{
+		Level:     "other",
+		LevelText: "Exhaustive over the 155 node kinds x all token and child slots: a typed-AST analysis decides, on every path of every printer method, that each slot is emitted exactly once, in declaration order, through the helper that fits its type, with a default that is a constant lexeme, the node's own Value or nothing; the five helpers are verified separately. Level 'other' because the equality of declaration order with source order and the lexeme-vs-scanner agreement are decided by other rules (order, default-lexeme) and compositionality of the written bytes is argued, not computed.",
+		LevelNote: "Trusts go/types and the analyser (fixtures run every time). Does not decide value-level effects inside write() (the separating space / '<?php ' insertion are enumerated by print-inserts under C02).",
+		Technique: "static analysis: typed-AST slot-event extraction + path enumeration over all printer methods; helper shape verification",
+		Engine:    "visitors",
+		Explanation: "print-slots: for each of the printer's visitor methods and each path, the sequence of primary arguments of printToken/printNode/printList/printSeparatedList equals the struct's token/child fields in declaration order, each once (alternative-syntax idiom modelled: a child StmtStmtList printed in place must have all of its own slots printed once in order); print-local: arguments and conditions refer only to the node being printed and printer state; defaults are nil, constants, n.Value or nil-selectors over own slots. print-helpers: printToken writes free-floating values in order then the token value when present, else the default; printSeparatedList interleaves item k with separators[k], else the default between items only; printList/printNode visit each non-nil element once; write emits its argument exactly once, last.",
+		Assumptions: []string{"declaration order of pkg/ast fields is source order (decided by rule `order` on the grammar actions, C02/C05)"},
+		TrustedBase: baseTrusted,
+		Floors: []report.Floor{
+			{Rule: "print-slots", What: "methods", Min: 155},
+			{Rule: "print-helpers", What: "helpers", Min: 10},
+		},
+		Run: func(c *Ctx) {
+			c.visitorRule("print-slots", visitors.PrintSlots)
+			c.Fixture("mini", "print-helpers", false, func(p *load.Program, tb *kinds.Table) *report.RuleResult {
+				r := visitors.PrintHelpersIn(p, tb, "pkg/visitor/printer")
+				r.Merge(visitors.PrintHelpersIn(p, tb, "pkg/visitor/badprinter"), "bad:")
+				return r
+			})
+			if p, tb, ok := c.RepoProgram(false); ok {
+				c.Add(visitors.PrintHelpers(p, tb))
+			}
+		},
+	}
+
+	properties["C16"] = &Property{
+		Level:     "other",
+		LevelText: "Exhaustive over the 155 node kinds x all fields: a typed-AST analysis decides that each dumper method opens a literal bearing its own kind's type, dumps every field exactly once under the field's own label (Val for byte values) with the helper matching the field's type, and closes the literal; helpers are checked for key/element/field completeness, bracket and indent balance on every path, and option gating. Level 'other' because validity of the whole output as Go source is argued from balance and per-field shape, not parsed.",
+		LevelNote: "Trusts go/types and the analyser. Does not run go/parser on any dump.",
+		Technique: "static analysis: typed-AST event extraction over all dumper methods and helpers; per-path bracket/indent balance",
+		Engine:    "visitors",
+		Explanation: "dump-slots: frame `&ast.<Kind>{` … `},`, dumpPosition(n.Position) and one helper call per other field whose constant label equals the field name (Val for []byte) and whose helper matches the field type. dump-helpers: dumpToken/dumpPosition treat token.Token / position.Position like kinds (each field once under its own name, zero-valued ID/Value omitted), dumpVertex/dumpVertexList/dumpTokenList print the key and each element once in order, brackets in all emitted constants balance on every path (strconv.Quote output is one literal), the indent is restored, and only the token helpers read withTokens / only dumpPosition reads withPositions.",
+		TrustedBase: baseTrusted,
+		Floors: []report.Floor{
+			{Rule: "dump-slots", What: "methods", Min: 155},
+			{Rule: "dump-helpers", What: "functions", Min: 160},
+		},
+		Run: func(c *Ctx) {
+			c.visitorRule("dump-slots", visitors.DumpSlots)
+			c.Fixture("mini", "dump-helpers", false, func(p *load.Program, tb *kinds.Table) *report.RuleResult {
+				r := visitors.DumpHelpersIn(p, tb, "pkg/visitor/dumper")
+				bad := visitors.DumpHelpersIn(p, tb, "pkg/visitor/baddumper")
+				var keep []report.Obligation
+				for _, ob := range bad.Obls {
+					if ob.Status != report.Discharged {
+						keep = append(keep, ob)
+					}
+				}
+				bad.Obls = keep
+				r.Merge(bad, "bad:")
+				return r
+			})
+			if p, tb, ok := c.RepoProgram(false); ok {
+				c.Add(visitors.DumpHelpers(p, tb))
+			}
 		},
 	}
 }
